@@ -187,6 +187,27 @@ def p1_inventory(ctx, cfgs):
             if e.get("status") == "defect":
                 r.viol("P1:" + skey, "known-defective site still present: %s (%s)" % (e["why"], ", ".join(lines[key])),
                        file=lines[key][0].rsplit(":", 1)[0], line=int(lines[key][0].rsplit(":", 1)[1]))
+            if e.get("requires_call"):
+                # the reason given for this site only holds while a named call receives a named enum variant: look at the MIR
+                import mustlib as _M
+                okv = []
+                for bb in prog.bodies.values():
+                    if root_fn(bb.name) != key[0]:
+                        continue
+                    for ci in _M.call_blocks(bb, e["requires_call"]):
+                        vs = set()
+                        for a in bb.blocks[ci]["term"]["args"]:
+                            pl = op_place(a)
+                            for d in (bb.defs().get(pl["l"], []) if pl and not pl["p"] else []):
+                                rv = d[2].get("rv", {}) if d[1] != "term" else {}
+                                if rv.get("k") == "Aggregate" and rv.get("agg") == "Adt":
+                                    vs.add("%s::%s" % (rv.get("adt"), rv.get("variant")))
+                        okv.append(e["requires_variant"] in vs)
+                if not okv or not all(okv):
+                    r.viol("P1:" + skey + "#precondition", "the site is only safe while `%s` is called with %s (%s); on this tree %s" % (
+                        e["requires_call"].rstrip("$"), e["requires_variant"], e["why"], "the call was not found" if not okv else "it is called with another variant"),
+                        file=lines[key][0].rsplit(":", 1)[0], line=int(lines[key][0].rsplit(":", 1)[1]))
+                    continue
             if (skey) not in seen_keys:
                 seen_keys.add(skey)
                 r.inst(skey, "count=%d listed=%d: %s" % (n, e["count"], e["why"]), cfg=cfg)
@@ -447,6 +468,19 @@ def run(ctx):
     from rules import offsets
     prog = ctx.mir("main")
     rules = [p1_inventory(ctx, cfgs), offsets.rule_boundaries(ctx), p3_floats(ctx, prog), r1_unrenderable(ctx, prog), t_termination(ctx, cfgs)]
+    # the table discharges `unwrap_at("resolve_foreign_keys_1")` with "the recorded path is found again, directly or at the merged
+    # plural key": that the retry asks for exactly the key merge_plurals merged the form under is decided by evaluating both
+    # functions on the same key spellings (rules/fkeval.py, shared with C06.R4)
+    from rules import fkeval, absint as _absint
+    p4 = Rule("C09.P4", "the reason a table entry gives for a site is itself checked: recorded reference paths are found after plurals merge",
+              "`never panics`: get_value_at_path(..).unwrap_at(\"resolve_foreign_keys_1\") is safe only while the key it retries at is the one "
+              "is_possible_plural / merge_plurals used; a different way of stripping the suffix (e.g. for a base key that itself ends in `_ordinal`) "
+              "turns a loadable file into a panic", floor=1)
+    try:
+        fkeval.check_plural_path(ctx, p4, "P4")
+    except _absint.Unknown as u:
+        p4.viol("P4:undecided", "cannot be interpreted on the current code (%s): not decided on this tree (fail closed)" % str(u)[:300])
+    rules.append(p4)
     return rules
 
 MANIFEST_ENTRY = {
